@@ -43,9 +43,19 @@ inline std::vector<sim::FlatObs> runHistory(const sim::Json &p) {
     TasmanianSparseGrid g;
     ObsOpts oo; oo.probes = 6;
     try { doMake(g, p.at("make")); } catch (std::exception &e) { sim::FlatObs f; f.op = std::string("make: exception ") + e.what(); out.push_back(f); return out; }
+    // some histories ask for a batch of interpolation weights (C interface in the OpenMP build) right after an operation, BEFORE any other
+    // query has touched the grid: lazily built state must meet the team of that parallel loop cold
+    bool weights_first = p.getb("weights_first");
+    auto coldWeights = [&](const std::string &when) {
+        if (!weights_first || g.empty() || g.getNumPoints() == 0 || g.getNumPoints() > 200) return;
+        std::vector<double> X = probePoints(g, 4); if (X.empty()) return;
+        Obs x; x.round("cold_batch_interpolation_weights", batchInterpolationWeights(g, X)); out.push_back(flatten("weights after " + when, x));
+    };
+    coldWeights("make");
     out.push_back(flatten("make", observe(g, oo)));
     if (p.has("ops")) for (auto const &o : p.at("ops").a) {
         std::string r = applyOp(g, o, nullptr);
+        coldWeights(o.gets("op"));
         out.push_back(flatten(o.gets("op") + " -> " + r, observe(g, oo)));
     }
     // extra parallel paths that observe() does not touch
